@@ -276,10 +276,10 @@ func genOps(r *rand.Rand, c *Case, m Model, stores []int, nops, keyspace int, ta
 		k := kinds[r.IntN(len(kinds))]
 		key := 1 + r.IntN(keyspace) // key 0 and load balancing are C17's sub-batches (known findings there)
 		cur := m[sp.Name]
-		if (k == "remove" || k == "update" || k == "get" || k == "updkey") && len(cur) > 0 && r.IntN(4) != 0 {
+		if (k == "remove" || k == "update" || k == "get" || k == "updkey" || k == "updcur" || k == "rmcur") && len(cur) > 0 && r.IntN(4) != 0 {
 			key = cur[r.IntN(len(cur))].K
 		}
-		if !sp.Unique && (k == "remove" || k == "update" || k == "upsert") {
+		if !sp.Unique && (k == "remove" || k == "update" || k == "upsert" || k == "updcur" || k == "rmcur") {
 			// keep the model unambiguous on duplicate-key stores
 			n := 0
 			for _, kv := range cur {
@@ -293,7 +293,7 @@ func genOps(r *rand.Rand, c *Case, m Model, stores []int, nops, keyspace int, ta
 		}
 		op := Op{K: k, S: si, Key: key}
 		switch k {
-		case "add", "addif", "upsert", "update":
+		case "add", "addif", "upsert", "update", "updcur":
 			op.Val = fmt.Sprintf("%s.%d", tag, i)
 		}
 		ops = append(ops, op)
@@ -302,7 +302,7 @@ func genOps(r *rand.Rand, c *Case, m Model, stores []int, nops, keyspace int, ta
 	return ops
 }
 
-var writeKinds = []string{"add", "add", "add", "addif", "upsert", "update", "remove", "remove", "get", "updkey"}
+var writeKinds = []string{"add", "add", "add", "addif", "upsert", "update", "updcur", "remove", "remove", "rmcur", "get", "updkey"}
 
 // setupTxn creates all stores and seeds them with nseed items each.
 func setupTxn(r *rand.Rand, c *Case, m Model, nseed, keyspace int) Txn {
